@@ -16,7 +16,7 @@ PROPS = {
     ),
     'C08': dict(title='Receive-side header validation and stream framing', l0=True, live=True, lean=['CoreBGP.Props.C08', 'CoreBGP.Props.PathTieC08', 'CoreBGP.Props.DecTieC08'],
         trivial=[r'^read/m0\.other$'], rule='L0 differential on the reader goroutine over in-memory connections with varying segmentations: header length values (quick: protocol-relevant sample + 400 random; thorough: all 65536) x types, all 256 types x boundary lengths, every marker position, every truncation; NOTIFICATION encodings; non-trivial = reader got past the first short read'),
-    'C14': dict(title='The OPEN corebgp sends reflects configuration and plugin capabilities', l0=True, live=True, lean=['CoreBGP.Props.C14'],
+    'C14': dict(title='The OPEN corebgp sends reflects configuration and plugin capabilities', l0=True, live=True, lean=['CoreBGP.Props.C14', 'CoreBGP.Props.PathTieConn'],
         rule='L0 differential on newOpenMessage+encode: AS grid incl. 65535/65536/2^32-1, hold times, capability lists 0..40 with codes 0..255 incl. 65, value lengths 0..300, sweeps across every 255-byte length-octet boundary'),
     'C02': dict(title='OPEN handshake: exactly the valid OPENs are accepted', l0=True, live=True, lean=['CoreBGP.Props.C02', 'CoreBGP.Props.C02b', 'CoreBGP.Props.C15', 'CoreBGP.Props.PathTieC02'],
         trivial=[r'^open\.dec/err\.1\.2$', r'^open\.val/undecodable$'],
@@ -33,11 +33,11 @@ PROPS = {
         rule='full configuration grid (router id kind x remote/local address kind x AS {0,1,65535,65536,2^32-1} x hold {0,1,2,3,65535} x port {-1,0,1,179,65535,65536}) through NewServer+AddPeer; seeded sequential registry operation sequences (<=13 ops over 6 keys, with and without Serve/Close) compared step by step with the model and the abstract map; concurrent histories (2-4 goroutines x 1-5 operations over 3 keys, serving or not, global-counter stamps) decided by the proved-sound-and-complete linearizability checker against the model and against the abstract map'),
     'C12': dict(title='Protocol errors damp the peer; Cease and transport faults do not', l0=True, live=True, lean=['CoreBGP.Props.C12', 'CoreBGP.Props.C12L2', 'CoreBGP.Props.C09Tie', 'CoreBGP.Props.DecTieC12', 'CoreBGP.Props.C12Hist'],
         rule='exhaustive error histories up to length 4 (thorough 5) over the gap alphabet {0,1,10,100,299,300,301,1000 s} and random long ones through the real updateStartupDelay; every NOTIFICATION code 0..255 x sent/received x wrapped/bare through the real handleError'),
-    'C05': dict(title='No remote input or API sequence can crash or wedge the process', l0=True, live=True, lean=['CoreBGP.Props.C05', 'CoreBGP.Props.C20Lock'], clauses=r'C05',
+    'C05': dict(title='No remote input or API sequence can crash or wedge the process', l0=True, live=True, lean=['CoreBGP.Props.C05', 'CoreBGP.Props.C20Lock', 'CoreBGP.Props.PathTieConn'], clauses=r'C05',
         rule='L0 differential with recover (PANIC is an output like any other) over every decoding entry point: the generators of C02/C08/C15/C16/C18/C19 plus oversize inputs (65535..70000 bytes with extreme length fields)'),
     'C07': dict(title='Connection collision is resolved per RFC 4271 6.8, in every arrival order', live=True, lean=['CoreBGP.Props.C07', 'CoreBGP.Props.DecTieC07'],
         rule='live collision grid: local id <,=,> remote id x AS <,> x which connection completes its OPEN exchange first x Established-before-the-other, plus the forced collision window (manager held before the select while the other FSM requests Established / fails); every trace checked by L1 inclusion and all monitors'),
-    'C10': dict(title='Shutdown from any state is prompt, complete, race-free and leak-free', live=True, lean=['CoreBGP.Props.C10', 'CoreBGP.Props.C10Own', 'CoreBGP.Props.C20Lock', 'CoreBGP.Props.C20Life', 'CoreBGP.Props.PathTieC10'], race_search=['C10', 'C11', 'C07', 'C04'], race_quick=['C10R'],
+    'C10': dict(title='Shutdown from any state is prompt, complete, race-free and leak-free', live=True, lean=['CoreBGP.Props.C10', 'CoreBGP.Props.C10Own', 'CoreBGP.Props.C20Lock', 'CoreBGP.Props.C20Life', 'CoreBGP.Props.PathTieC10', 'CoreBGP.Props.PathTieConn'], race_search=['C10', 'C11', 'C07', 'C04'], race_quick=['C10R'],
         rule='Close / DeletePeer at every point of every connection script (idle, before Serve, OpenSent, OpenConfirm, Established, during collision, damped, with active writers, two peers, the forced dial-completed-while-closing window), both directions'),
     'C09': dict(title='State-dependent message handling follows RFC 4271 8.2.2 / RFC 6608', live=True, lean=['CoreBGP.Props.C09', 'CoreBGP.Props.C09Tie', 'CoreBGP.Props.C09Switch', 'CoreBGP.Props.PathTie', 'CoreBGP.Props.PathTieC09'],
         rule='exhaustive live table: state {OpenSent, OpenConfirm, Established} x stimulus {OPEN, UPDATE, KEEPALIVE, NOTIFICATION Cease/other/hold/undecodable, FIN, RST} x direction {out, in}; each trace must be reproduced by the L1 session model and pass all monitors'),
